@@ -587,18 +587,14 @@ func (ex *Exec) doAppend(fr *Frame, instr ssa.CallInstruction, c *ssa.CallCommon
 		so := arraySort(SRef, lf.so)
 		h := ex.get(st, lf.key, so)
 		nh := ex.vc.fresh("H_"+shortKey(lf.key), so)
-		dst := func(i string) string {
-			return lf.addr(fmt.Sprintf("(elem %s (+ %s %s))", sBase(r).S, sOff(r).S, i))
-		}
-		srcOld := func(i string) string {
-			return lf.addr(fmt.Sprintf("(elem %s (+ %s %s))", sBase(s).S, sOff(s).S, i))
-		}
-		srcNew := func(j string) string {
-			return lf.addr(fmt.Sprintf("(elem %s (+ %s %s))", sBase(t).S, sOff(t).S, j))
-		}
-		// appended elements
-		ex.vc.assume(pc, T(fmt.Sprintf("(forall ((j Int)) (! (=> (and (<= 0 j) (< j %s)) (= (select %s %s) (select %s %s))) :pattern ((select %s %s))))",
-			tl.S, nh.S, dst("(+ "+sLen(s).S+" j)"), h.S, srcNew("j"), nh.S, dst("(+ "+sLen(s).S+" j)")), SBool), "append: new elements")
+		// element addresses are written with the arithmetic-free `at` function so that the
+		// patterns below match the terms produced by indexing and by specifications
+		dst := func(i string) string { return lf.addr(fmt.Sprintf("(at %s %s)", r.S, i)) }
+		srcOld := func(i string) string { return lf.addr(fmt.Sprintf("(at %s %s)", s.S, i)) }
+		srcNew := func(j string) string { return lf.addr(fmt.Sprintf("(at %s %s)", t.S, j)) }
+		// appended elements (k is the index in the result)
+		ex.vc.assume(pc, T(fmt.Sprintf("(forall ((k Int)) (! (=> (and (<= %s k) (< k %s)) (= (select %s %s) (select %s %s))) :pattern ((select %s %s))))",
+			sLen(s).S, newLen.S, nh.S, dst("k"), h.S, srcNew("(- k "+sLen(s).S+")"), nh.S, dst("k")), SBool), "append: new elements")
 		// old elements
 		ex.vc.assume(pc, T(fmt.Sprintf("(forall ((i Int)) (! (=> (and (<= 0 i) (< i %s)) (= (select %s %s) (select %s %s))) :pattern ((select %s %s))))",
 			sLen(s).S, nh.S, dst("i"), h.S, srcOld("i"), nh.S, dst("i")), SBool), "append: old elements")
@@ -656,8 +652,8 @@ func (ex *Exec) doCopy(fr *Frame, c *ssa.CallCommon, args []Term, pc Term, st St
 		so := arraySort(SRef, lf.so)
 		h := ex.get(st, lf.key, so)
 		nh := ex.vc.fresh("H_"+shortKey(lf.key), so)
-		dst := func(i string) string { return lf.addr(fmt.Sprintf("(elem %s (+ %s %s))", sBase(d).S, sOff(d).S, i)) }
-		src := func(i string) string { return lf.addr(fmt.Sprintf("(elem %s (+ %s %s))", sBase(s).S, sOff(s).S, i)) }
+		dst := func(i string) string { return lf.addr(fmt.Sprintf("(at %s %s)", d.S, i)) }
+		src := func(i string) string { return lf.addr(fmt.Sprintf("(at %s %s)", s.S, i)) }
 		ex.vc.assume(pc, T(fmt.Sprintf("(forall ((i Int)) (! (=> (and (<= 0 i) (< i %s)) (= (select %s %s) (select %s %s))) :pattern ((select %s %s))))",
 			n.S, nh.S, dst("i"), h.S, src("i"), nh.S, dst("i")), SBool), "copy: copied elements")
 		// frame
